@@ -7,7 +7,7 @@
 
    Modelled code (file : function):
      _3rd_party/gcem/gcem_incl/{is_nan,is_inf,is_finite,abs,sgn,min,max}.hpp
-     _3rd_party/gcem/gcem_incl/{floor,ceil,trunc,round,find_whole,fmod}.hpp   (the fall-back
+     _3rd_party/gcem/gcem_incl/{floor,ceil,trunc,round,find_whole,fmod}.hpp   (fmod.hpp: fmod and remainder; the fall-back
         kernels: constant evaluation of float/double, every long double call)
      _cmath/rint.hpp : rint_fallback      _cmath/lrint.hpp : lrint_fallback
      _cmath/signbit.hpp : signbit_fallback   _cmath/copysign.hpp : copysign_fallback
@@ -124,11 +124,51 @@ Definition g_round (x : fl) : res fl :=
   else if fge (g_abs x) g_limit then Ok x
   else rbind (g_round_int (g_abs x)) (fun r => Ok (fmul (of_Z (g_sgn x)) r)).
 
-(** * gcem fmod: x - trunc(x / y) * y  (also the constant-evaluation path of remainder) *)
+(** * gcem fmod / remainder (after the exact rewrite): binary long division.
+    fmod_exact(ax, ay, odd): a = ay doubled while a <= r/2, then for a going back down to ay:
+    subtract a from r whenever r >= a.  Loops are fuelled; [g_fuel] exceeds the number of binades
+    of the format, so OutOfFuel is never reached on real inputs (the theorems exclude it). *)
+Fixpoint g_fmod_up (fuel : nat) (r a : fl) : res fl :=
+  match fuel with
+  | O => OutOfFuel
+  | S f => if fle a (fmul r f_half) then g_fmod_up f r (fadd a a) else Ok a
+  end.
+Fixpoint g_fmod_down (fuel : nat) (ay r a : fl) : res (fl * bool) :=
+  match fuel with
+  | O => OutOfFuel
+  | S f =>
+      let sub := fge r a in
+      let r' := if sub then fsub r a else r in
+      if feq a ay then Ok (r', sub) else g_fmod_down f ay r' (fmul a f_half)
+  end.
+Definition g_fmod_exact (fuel : nat) (ax ay : fl) : res (fl * bool) :=
+  rbind (g_fmod_up fuel ax ay) (fun a => g_fmod_down fuel ay ax a).
+Definition g_fuel : nat := Z.to_nat (2 * emax + 2 * prec + 8).
+
+Definition g_fmod_invalid (x y : fl) : bool :=
+  g_is_nan x || g_is_nan y || negb (g_is_finite x) || feq y f_zero.
+
 Definition g_fmod (x y : fl) : res fl :=
-  if g_is_nan x || g_is_nan y then Ok f_nan
-  else if negb (g_is_finite x && g_is_finite y) then Ok f_nan
-  else rbind (g_trunc (fdiv x y)) (fun t => Ok (fsub x (fmul t y))).
+  if g_fmod_invalid x y then Ok f_nan
+  else
+    let ax := g_abs x in
+    let ay := g_abs y in
+    if negb (fge ax ay) then Ok x
+    else rbind (g_fmod_exact g_fuel ax ay) (fun ro =>
+           Ok (if flt x f_zero then fneg (fst ro) else fst ro)).
+
+(* constant-evaluation path of remainder *)
+Definition g_remainder (x y : fl) : res fl :=
+  if g_fmod_invalid x y then Ok f_nan
+  else if negb (g_is_finite y) || feq x f_zero then Ok x
+  else
+    let ax := g_abs x in
+    let ay := g_abs y in
+    rbind (if fge ax ay then g_fmod_exact g_fuel ax ay else Ok (ax, false)) (fun ro =>
+      let r := fst ro in
+      let u := fsub ay r in
+      let r' := if fgt r u || (feq r u && snd ro) then fsub r ay else r in
+      Ok (if flt x f_zero then fneg r' else r')).
 
 (** * etl fall-backs and library-written functions *)
 (* _math/abs.hpp abs_impl: abs(float), fabs *)
